@@ -464,6 +464,8 @@ impl<E: Elem> Interp<E> {
             (okind, arg)
         };
         let spare = vals.iter().any(|v| matches!(v, Val::Vec(x) if x.capacity() > x.len()));
+        let okind = if okind.starts_with("arr_via") { "arr".to_string() } else { okind };
+        let okind_exec = { let k = js(st, "okind"); if k.is_empty() { "arr".to_string() } else { k.to_string() } };
         let logged_op = match op {
             "builder_abandon" | "intrusive_abandon" => "generate",
             "consumer_abandon" => "fold",
@@ -492,7 +494,7 @@ impl<E: Elem> Interp<E> {
             }
             let r = catch_unwind(AssertUnwindSafe(move || {
                 let _s = crate::alloc::LibScope::enter();
-                exec::<E>(op, vals_ref, forms_ref, arg, elems, n as usize, &okind, &ctx, &script)
+                exec::<E>(op, vals_ref, forms_ref, arg, elems, n as usize, &okind_exec, &ctx, &script)
             }));
             crate::alloc::FAIL_AT.store(0, std::sync::atomic::Ordering::SeqCst);
             r
@@ -768,6 +770,9 @@ fn exec<E: Elem>(op: &str, vals: &mut Vec<Val<E>>, forms: &[String], arg: i64, m
         // ---- functional operations -----------------------------------------------------
         "generate" => Outcome::outs([match okind {
             "box" => with_len!(n, N => Box::<GenericArray<E, N>>::generate(|i| ctx.gen::<E>(i)).wrap(), bad()),
+            // GenericSequence for &S / &mut S forwards generate to S
+            "arr_via_ref" => with_len!(n, N => <&GenericArray<E, N> as GenericSequence<E>>::generate(|i| ctx.gen::<E>(i)).wrap(), bad()),
+            "arr_via_mut" => with_len!(n, N => <&mut GenericArray<E, N> as GenericSequence<E>>::generate(|i| ctx.gen::<E>(i)).wrap(), bad()),
             _ => with_len!(n, N => GenericArray::<E, N>::generate(|i| ctx.gen::<E>(i)).wrap(), bad()),
         }]),
         "default" => Outcome::outs([match okind {
